@@ -319,7 +319,7 @@ Proof.
       - destruct ds as [|c r]; [congruence|]. destruct j; [lia|]. exact D. }
     assert (Hlen : lenN (skipn j ds) = k).
     { unfold lenN. rewrite skipn_length. unfold j, lenN in *. lia. }
-    repeat split.
+    split; [|split].
     + unfold parse_float_body. rewrite (span_digits_app (firstn j ds) ([46] ++ skipn j ds) A1 eq_refl).
       rewrite Hip. cbn [negb app].
       replace (skipn j ds) with (skipn j ds ++ []) at 1 by apply app_nil_r.
@@ -333,7 +333,7 @@ Proof.
     assert (A2 : forallb is_digit (zeros (k - lenN ds) ++ ds) = true) by (rewrite forallb_app, Z1, A; reflexivity).
     assert (Hlen : lenN (zeros (k - lenN ds) ++ ds) = k).
     { unfold lenN in *. rewrite app_length. lia. }
-    repeat split.
+    split; [|split].
     + unfold parse_float_body.
       change ([48; 46] ++ zeros (k - lenN ds) ++ ds) with ([48] ++ 46 :: zeros (k - lenN ds) ++ ds).
       rewrite (span_digits_app [48] (46 :: zeros (k - lenN ds) ++ ds) eq_refl eq_refl).
@@ -382,3 +382,168 @@ Proof. vm_compute. repeat split. Qed.
 (* the decision that separates the two classes, as a boolean classifier on the model value *)
 Definition float_prints_as_float (x : fl) : bool :=
   match x with FFin _ m e => (e <? 0)%Z && negb (m mod 10 =? 0) | _ => false end.
+
+(* ------------------------------------------------------------------ occurrence indicators *)
+Lemma split_star_app : forall a b, forallb is_digit a = true -> split_star (a ++ 42 :: b) = Some (a, b).
+Proof.
+  induction a as [|c a IH]; intros b H; [reflexivity|].
+  cbn [forallb] in H. apply andb_prop in H as [H1 H2]. cbn [app split_star].
+  destruct (c =? 42) eqn:E; [unfold is_digit in H1; lia|]. rewrite (IH b H2). reflexivity.
+Qed.
+
+Lemma opt_uint_render : forall n, n < two64 -> opt_uint (render_uint n) = Some (Some n).
+Proof.
+  intros n H. pose proof (render_uint_digits n) as D. destruct (digits_hd _ _ D) as [c [r [E _]]].
+  unfold opt_uint. rewrite (parse_uint_render n H). rewrite E. reflexivity.
+Qed.
+
+Lemma list_eqb_digit_single : forall c r x, is_digit c = true -> (x =? 63) || (x =? 43) || (x =? 42) = true ->
+  list_eqb (c :: r) [x] = false.
+Proof. intros c r x H Hx. cbn [list_eqb]. unfold is_digit in H. destruct (c =? x) eqn:E; [lia|reflexivity]. Qed.
+
+Lemma parse_occur_digits : forall a b, forallb is_digit a = true -> a <> [] ->
+  parse_occur (a ++ 42 :: b) =
+  match opt_uint a, opt_uint b with Some lo, Some hi => Some (OExact lo hi) | _, _ => None end.
+Proof.
+  intros a b A Hn. destruct a as [|c r]; [congruence|].
+  assert (Hc : is_digit c = true) by (cbn [forallb] in A; apply andb_prop in A as [A1 _]; exact A1).
+  unfold parse_occur. cbn [app]. rewrite !(list_eqb_digit_single c _ _ Hc) by reflexivity.
+  change (c :: r ++ 42 :: b) with ((c :: r) ++ 42 :: b). rewrite (split_star_app _ _ A). reflexivity.
+Qed.
+
+Definition occur_bounded (o : occur) : Prop :=
+  match o with
+  | OExact lo hi => (match lo with Some l => l < two64 | None => True end) /\ (match hi with Some u => u < two64 | None => True end)
+  | _ => True
+  end.
+
+(* FULL STATEMENT (false of the model type, true of what the parser produces): forall o, parse_occur (render_occur o) = Some o.
+   Occur::Exact{lower: None, upper: None} prints "*" which is read as ZeroOrMore; pest_bridge never builds that value. *)
+Theorem render_occur_rt_partial : forall o, occur_bounded o -> o <> OExact None None ->
+  parse_occur (render_occur o) = Some o.
+Proof.
+  intros o Hb Hne. destruct o as [| | |[l|] [u|]]; try reflexivity; cbn [occur_bounded] in Hb; destruct Hb as [Hl Hu].
+  - cbn [render_occur]. destruct (render_uint_digits l) as [A [B _]].
+    change (render_uint l ++ [42] ++ render_uint u) with (render_uint l ++ 42 :: render_uint u).
+    rewrite (parse_occur_digits _ _ A B), (opt_uint_render l Hl), (opt_uint_render u Hu). reflexivity.
+  - cbn [render_occur]. destruct (render_uint_digits l) as [A [B _]].
+    change (render_uint l ++ [42]) with (render_uint l ++ 42 :: []).
+    rewrite (parse_occur_digits _ _ A B), (opt_uint_render l Hl). reflexivity.
+  - cbn [render_occur app]. pose proof (render_uint_digits u) as Du. destruct (digits_hd _ _ Du) as [c [r [E Hc]]].
+    unfold parse_occur. cbn [list_eqb]. change (42 =? 63) with false. change (42 =? 43) with false. change (42 =? 42) with true.
+    cbn [andb]. replace (list_eqb (render_uint u) []) with false by (rewrite E; reflexivity).
+    cbn [split_star]. change (42 =? 42) with true. cbv iota.
+    rewrite (opt_uint_render u Hu). reflexivity.
+  - congruence.
+Qed.
+
+Theorem render_occur_rt_refuted : parse_occur (render_occur (OExact None None)) = Some OStar.
+Proof. vm_compute. reflexivity. Qed.
+
+(* ------------------------------------------------------------------ tag heads *)
+Lemma render_uint_small : forall m, m < 10 -> render_uint m = [48 + m].
+Proof.
+  intros m H. assert (C : In m [0;1;2;3;4;5;6;7;8;9]) by (cbn [In]; lia). cbn [In] in C.
+  repeat (destruct C as [<-|C]; [vm_compute; reflexivity|]). contradiction.
+Qed.
+
+Definition dot_part (c : option N) : list N := match c with Some n => 46 :: render_uint n | None => [] end.
+
+Lemma parse_dot_uint_render : forall c, (match c with Some n => n < two64 | None => True end) ->
+  parse_dot_uint (dot_part c) = Some c.
+Proof.
+  intros [n|] H; [|reflexivity]. cbn [dot_part parse_dot_uint]. rewrite (parse_uint_render n H). reflexivity.
+Qed.
+
+Definition taghead_ok (t : taghead) : Prop :=
+  match t with
+  | TTagged c => match c with Some n => n < two64 | None => True end
+  | TMajor m c => m < 10 /\ m <> 6 /\ match c with Some n => n < two64 | None => True end
+  | TAny => True
+  end.
+
+(* FULL STATEMENT restricted to what the grammar can produce (major type one DIGIT; major type 6 is the tag form) *)
+Theorem render_tag_head_rt : forall t, taghead_ok t -> parse_tag_head (render_tag_head t) = Some t.
+Proof.
+  intros [c|m c|] H; cbn [taghead_ok] in H.
+  - assert (E : render_tag_head (TTagged c) = 35 :: 54 :: dot_part c) by (destruct c; reflexivity).
+    rewrite E. cbn [parse_tag_head]. change (is_digit 54) with true. cbv iota.
+    rewrite (parse_dot_uint_render c H). reflexivity.
+  - destruct H as [Hm [H6 Hc]].
+    assert (E : render_tag_head (TMajor m c) = 35 :: (48 + m) :: dot_part c).
+    { destruct c; cbn [render_tag_head dot_part]; rewrite (render_uint_small m Hm); reflexivity. }
+    rewrite E. cbn [parse_tag_head]. replace (is_digit (48 + m)) with true by (unfold is_digit; lia).
+    rewrite (parse_dot_uint_render c Hc). replace (48 + m =? 54) with false by lia. f_equal. f_equal. lia.
+  - reflexivity.
+Qed.
+
+Theorem render_tag_head_major6_refuted : parse_tag_head (render_tag_head (TMajor 6 None)) = Some (TTagged None).
+Proof. vm_compute. reflexivity. Qed.
+
+(* ------------------------------------------------------------------ control operators *)
+Definition ctl_eqb (a b : ctl) : bool := list_eqb (ctl_name a) (ctl_name b).
+
+Lemma all_ctl_complete : forall c, In c all_ctl.
+Proof. intros c. destruct c; cbn; tauto. Qed.
+
+(* ControlOperator::fmt followed by lookup_control_from_str is the identity on all 37 operators *)
+Theorem render_ctl_rt : forall c, parse_ctl (render_ctl c) = Some c.
+Proof. intros c. destruct c; vm_compute; reflexivity. Qed.
+
+(* at the grammar level (cddl.pest's ordered choice control_name) the printed name followed by a blank is read back as
+   the same operator for every operator except .cborseq, which the grammar can never produce ("cbor" is tried first) *)
+Theorem render_ctl_peg_partial : forall c, c <> CCborseq -> peg_ctl (render_ctl c ++ [32]) = Some (c, [32]).
+Proof. intros c H. destruct c; try (vm_compute; reflexivity). congruence. Qed.
+
+Theorem render_ctl_peg_refuted : peg_ctl (render_ctl CCborseq ++ [32]) = Some (CCbor, [115; 101; 113; 32]).
+Proof. vm_compute. reflexivity. Qed.
+
+(* Type1::fmt puts no blank between a control operator and its controller unless the left operand is a type name:
+   `"x" .abnf bstr` prints `"x".abnfbstr`, which the grammar reads as `.abnfb` applied to `str` *)
+Theorem render_ctl_glue_refuted :
+  peg_ctl (render_ctl CAbnf ++ [98; 115; 116; 114]) = Some (CAbnfb, [115; 116; 114]).
+Proof. vm_compute. reflexivity. Qed.
+
+(* ------------------------------------------------------------------ identifiers, sockets, markers *)
+Definition ident_ok (id : list N) : Prop := match id with [] => False | c :: _ => c <> 36 end.
+
+Theorem render_ident_rt : forall s id, ident_ok id -> parse_ident (render_ident s id) = Some (s, id).
+Proof.
+  intros s id H. destruct id as [|c r]; [contradiction|]. cbn [ident_ok] in H.
+  destruct s; cbn [render_ident render_socket app].
+  - unfold parse_ident. destruct (N.eq_dec c 36) as [->|Hne]; [congruence|].
+    destruct c as [|p]; [reflexivity|].
+    repeat (destruct p as [p|p|]; try reflexivity); congruence.
+  - cbn [parse_ident]. destruct (N.eq_dec c 36) as [->|Hne]; [congruence|].
+    destruct c as [|p]; [reflexivity|].
+    repeat (destruct p as [p|p|]; try reflexivity); congruence.
+  - reflexivity.
+Qed.
+
+(* FULL STATEMENT (false of the code): forall m s id, ident_ok id -> parse_marked (render_marked m s id) = Some (m, s, id).
+   Type2::Unwrap::fmt prints the identifier without the '~'. *)
+Theorem render_marked_rt_partial : forall m s id, ident_ok id -> hd 0 id <> 126 -> hd 0 id <> 38 ->
+  m <> MUnwrap -> parse_marked (render_marked m s id) = Some (m, s, id).
+Proof.
+  intros m s id H H1 H2 Hm. destruct m; [|congruence|].
+  - cbn [render_marked]. pose proof (render_ident_rt s id H) as R.
+    destruct id as [|c r]; [contradiction|]. cbn [hd] in H1, H2.
+    destruct s; cbn [render_ident render_socket app] in *.
+    + unfold parse_marked. replace (c =? 126) with false by lia. replace (c =? 38) with false by lia.
+      rewrite R. reflexivity.
+    + unfold parse_marked. change (36 =? 126) with false. change (36 =? 38) with false. cbv iota. rewrite R. reflexivity.
+    + unfold parse_marked. change (36 =? 126) with false. change (36 =? 38) with false. cbv iota. rewrite R. reflexivity.
+  - cbn [render_marked render_gname].
+    change (parse_marked (render_gname s id))
+      with (option_map (fun p => (MGname, fst p, snd p)) (parse_ident (render_ident s id))).
+    rewrite (render_ident_rt s id H). reflexivity.
+Qed.
+
+Theorem render_marked_rt_refuted : parse_marked (render_marked MUnwrap SNone [98]) = Some (MName, SNone, [98]).
+Proof. vm_compute. reflexivity. Qed.
+
+Theorem render_cut_rt : forall b, parse_cut (render_cut b) = Some b.
+Proof. intros [|]; vm_compute; reflexivity. Qed.
+
+Theorem render_rangeop_rt : forall b, parse_rangeop (render_rangeop b) = Some b.
+Proof. intros [|]; vm_compute; reflexivity. Qed.
